@@ -9,6 +9,9 @@ package main
 //	defer:<path>       defer recv.<path>()
 //	return:<path>(<args>)  return recv.<path>(<args>)   — the delegated call, arguments as written
 //
+// A method declared with a value receiver gets a leading `other:value receiver …` statement: the struct, and
+// with it the lock, would be copied on every call, so the lock/unlock pair in the body excludes nobody.
+//
 // Output: FpgoVerif.Gen.lockModes : List LockMode  (type, method, params, stmts).
 
 import (
@@ -97,8 +100,10 @@ func genLockModes(repo string) (string, error) {
 			continue
 		}
 		t := fd.Recv.List[0].Type
+		byValue := true
 		if st, ok := t.(*ast.StarExpr); ok {
 			t = st.X
+			byValue = false
 		}
 		if ix, ok := t.(*ast.IndexExpr); ok {
 			t = ix.X
@@ -121,6 +126,10 @@ func genLockModes(repo string) (string, error) {
 			}
 		}
 		e := ent{typ: typ, method: fd.Name.Name, params: strings.Join(params, ",")}
+		if byValue {
+			// a value receiver copies the struct and with it the RWMutex: every call locks its own copy
+			e.stmts = append(e.stmts, "other:value receiver (the lock is copied per call)")
+		}
 		for _, s := range fd.Body.List {
 			e.stmts = append(e.stmts, c08Stmt(fset, s, recv))
 		}
